@@ -91,7 +91,12 @@ Invs == [
   I31 |-> Call1("F", <<T("\"s t\"", "str")>>),
   I32 |-> Call1("F", <<Id("x"), CM, Id("y")>>),
   I33 |-> Call1("F", Call1("F", <<>>)),
-  I34 |-> Call1("F", <<CM, CM>>) ]
+  I34 |-> Call1("F", <<CM, CM>>),
+  \* arguments spelled like parameters (of the macro itself, swapped, or of the macro it calls)
+  I35 |-> Call1("F", <<Id("a")>>),
+  I36 |-> Call1("F", <<Id("b"), CM, Id("a")>>),
+  I37 |-> Call1("G", <<Id("x")>>),
+  I38 |-> Call1("F", <<Id("x"), PLUS, Id("a")>>) ]
 
 Sel == CASE Profile = "q" -> [f |-> DOMAIN FDefs, g |-> {"G0", "G1", "G2", "G4", "G6"}, o |-> {"O0", "O1", "O4", "O3", "O7"}, i |-> DOMAIN Invs]
          [] Profile = "t" -> [f |-> DOMAIN FDefs, g |-> DOMAIN GDefs, o |-> DOMAIN ODefs, i |-> DOMAIN Invs]
